@@ -31,6 +31,19 @@ fn boundary(len: u64) -> Vec<u64> {
 fn report(p: &str, msg: String, n: &mut usize) { if *n < 40 { println!("FAILING-INPUT: {} {}", p, msg); } *n += 1; }
 
 // ------------------------------------------------------------------------------------------------ C01 / C07 (slice level)
+/// a legal foreign VolatileMemory implementor whose get_slice is "best effort": a window that runs
+/// past the end is clamped instead of refused (the trait docs allow it; unsafe code must not rely on
+/// get_slice(o, n).len() == n)
+struct Clamp<'a>(VolatileSlice<'a, ()>);
+impl VolatileMemory for Clamp<'_> {
+    type B = ();
+    fn len(&self) -> usize { self.0.len() }
+    fn get_slice(&self, offset: usize, count: usize) -> vm_memory::volatile_memory::Result<VolatileSlice<'_, ()>> {
+        let o = self.0.offset(offset)?;
+        let n = count.min(o.len());
+        o.subslice(0, n)
+    }
+}
 #[test]
 fn search_c01() {
     let mut found = 0usize;
@@ -55,7 +68,16 @@ fn search_c01() {
                 let sz = std::mem::size_of::<$T>();
                 match s.get_array_ref::<$T>(a, b) {
                     Ok(x) => { if (a as u128 + b as u128 * sz as u128) > LEN as u128 || x.len() != b || !within(x.ptr_guard().as_ptr() as usize, 0) {
-                        bad = Some(format!("get_array_ref::<{}>({a},{b}) granted although {} elements of {} bytes do not fit in {} bytes", stringify!($T), b, sz, LEN)); } }
+                        bad = Some(format!("get_array_ref::<{}>({a},{b}) granted although {} elements of {} bytes do not fit in {} bytes", stringify!($T), b, sz, LEN)); }
+                        // element references: in the array for index < len, refused (panic) from len on
+                        for idx in [0usize, b.saturating_sub(1), b, b.saturating_add(1)] {
+                            let xr = &x;
+                            match catch_unwind(AssertUnwindSafe(move || { let r = xr.ref_at(idx); r.ptr_guard().as_ptr() as usize })) {
+                                Ok(p) => { if idx >= b || !within(p, sz) || p != base + a + idx * sz { bad = Some(format!("get_array_ref::<{}>({a},{b}).ref_at({idx}) handed out a reference outside the {b}-element array", stringify!($T))); } }
+                                Err(_) => { if idx < b { bad = Some(format!("get_array_ref::<{}>({a},{b}).ref_at({idx}) refused an in-range index", stringify!($T))); } }
+                            }
+                        }
+                    }
                     Err(_) => { if (a as u128 + b as u128 * sz as u128) <= LEN as u128 && b <= isize::MAX as usize { bad = Some(format!("get_array_ref::<{}>({a},{b}) refused although it fits", stringify!($T))); } }
                 }
                 match s.get_ref::<$T>(a) {
@@ -64,6 +86,32 @@ fn search_c01() {
                 }
             }}; }
             arr!(u8); arr!(u16); arr!(u32); arr!(u64); arr!(u128);
+            // single-call stream forms: min(count, rest of the slice, stream) bytes, error only past the end
+            {
+                let data = [7u8; 64];
+                let want = |avail: usize| -> usize { b.min(LEN.saturating_sub(a)).min(avail) };
+                match s.read_volatile_from(a, &mut &data[..], b) {
+                    Ok(n) => { if a > LEN || n != want(64) { bad = Some(format!("read_volatile_from(addr={a}, count={b}) on a {LEN}-byte slice moved {n} bytes")); } }
+                    Err(_) => { if a <= LEN { bad = Some(format!("read_volatile_from(addr={a}, count={b}) refused an address inside the {LEN}-byte slice")); } }
+                }
+                let mut sink = [0u8; 64];
+                match s.write_volatile_to(a, &mut &mut sink[..], b) {
+                    Ok(n) => { if a > LEN || n != want(64) { bad = Some(format!("write_volatile_to(addr={a}, count={b}) on a {LEN}-byte slice moved {n} bytes")); } }
+                    Err(_) => { if a <= LEN { bad = Some(format!("write_volatile_to(addr={a}, count={b}) refused an address inside the {LEN}-byte slice")); } }
+                }
+            }
+            // the provided methods on a foreign implementor: refuse (error or panic), or stay inside
+            macro_rules! foreign { ($T:ty) => {{
+                let sz = std::mem::size_of::<$T>();
+                let c = Clamp(unsafe { VolatileSlice::new(base as *mut u8, LEN) });
+                if let Ok(Ok(p)) = catch_unwind(AssertUnwindSafe(|| c.get_ref::<$T>(a).map(|x| x.ptr_guard().as_ptr() as usize))) {
+                    if !within(p, sz) { bad = Some(format!("get_ref::<{}>({a}) on a VolatileMemory implementor whose get_slice clamps handed out a reference outside the {LEN}-byte memory", stringify!($T))); } }
+                if b < 64 { if let Ok(Ok(p)) = catch_unwind(AssertUnwindSafe(|| c.get_array_ref::<$T>(a, b).map(|x| x.ptr_guard().as_ptr() as usize))) {
+                    if !within(p, sz * b) { bad = Some(format!("get_array_ref::<{}>({a},{b}) on a VolatileMemory implementor whose get_slice clamps handed out an array outside the {LEN}-byte memory", stringify!($T))); } } }
+            }}; }
+            foreign!(u16); foreign!(u32); foreign!(u64);
+            if let Ok(Ok(p)) = catch_unwind(AssertUnwindSafe(|| Clamp(unsafe { VolatileSlice::new(base as *mut u8, LEN) }).get_atomic_ref::<std::sync::atomic::AtomicU32>(a).map(|r| r as *const _ as usize))) {
+                if !within(p, 4) { bad = Some(format!("get_atomic_ref::<AtomicU32>({a}) on a clamping implementor is outside the memory")); } }
             // atomic refs: only at aligned addresses
             if let Ok(r) = s.get_atomic_ref::<std::sync::atomic::AtomicU32>(a) { let p = r as *const _ as usize; if p % 4 != 0 || !within(p, 4) { bad = Some(format!("get_atomic_ref::<AtomicU32>({a}) handed out a misaligned or out-of-parent reference (host address {p:#x})")); } }
             else if (a as u128 + 4) <= LEN as u128 && (base + a) % 4 == 0 { bad = Some(format!("get_atomic_ref::<AtomicU32>({a}) refused an aligned in-range address")); }
